@@ -426,6 +426,11 @@ def part_ufunc(ctx, shard):
                         if st2 == "ok":
                             ref0 = ref[0] if isinstance(ref, tuple) else ref
                             _cmp_target(ctx, base, case, outb, ref0)
+                            # an augmented assignment re-binds the name to what the operator RETURNS, and a ufunc called with
+                            # out= returns its buffer: the returned object is held to the copying result as well
+                            r0 = r[0] if isinstance(r, tuple) else r
+                            if isinstance(r0, unyt_array) and r0 is not outb:
+                                _cmp_target(ctx, base + "|object=returned", case, r0, ref0)
 
 
 def _cmp_target(ctx, base, case, tgt, ref):
